@@ -585,6 +585,7 @@ pub fn run_case(prop: &str, case: &Case, ctx: &mut CaseCtx) -> Result<(), Violat
         let c = w.ics20.clone();
         // entry k of the image lives on channel k % n_ch
         let mut booked: BTreeMap<(usize, usize), (u128, Vec<u32>)> = BTreeMap::new();
+        let mut unbooked: Vec<(usize, usize)> = vec![];
         for (k, (t, acked, inflight)) in l.tokens.iter().enumerate() {
             let e = booked.entry((k % n_ch, *t as usize % N_TOK)).or_insert((0, vec![]));
             e.0 += *acked as u128;
@@ -601,10 +602,22 @@ pub fn run_case(prop: &str, case: &Case, ctx: &mut CaseCtx) -> Result<(), Violat
                     w.app.execute_contract(faucet.clone(), w.cw20[*tok - N_NATIVE].clone(), &Cw20ExecuteMsg::Transfer { recipient: c.to_string(), amount: Uint128::new(total) }, &[]).expect("fund");
                 }
             }
-            // v2 semantics: only acknowledged sends are booked
-            let key = L_CHANNEL_STATE.key((&chan_id(*ch), &denom)).to_vec();
-            let val = to_json_vec(&LegacyChannelState { outstanding: Uint128::new(*acked), total_sent: Uint128::new(*acked) }).unwrap();
-            try_sudo(&mut w.app, &c, &Shim::RawSet { key: key.into(), value: val.into() }).expect("rawset");
+            // v2 semantics: only acknowledged sends are booked, and the record of a (channel, denomination) pair is
+            // first written by its first acknowledged send: a pair with nothing but unacknowledged sends has none.
+            // Images with several channels are written exactly so (the upgrade has to refuse them anyway); with one
+            // channel C12 does so for part of the pairs (see known finding C12/legacy-inflight-unbooked), the other
+            // pairs carry a zero record
+            let no_record = *acked == 0 && !inflight.is_empty() && (n_ch >= 2 || (prop == "C12" && inflight[0] % 2 == 1));
+            if no_record {
+                ctx.count("legacy_pair_without_record");
+                if n_ch == 1 {
+                    unbooked.push((*ch, *tok));
+                }
+            } else {
+                let key = L_CHANNEL_STATE.key((&chan_id(*ch), &denom)).to_vec();
+                let val = to_json_vec(&LegacyChannelState { outstanding: Uint128::new(*acked), total_sent: Uint128::new(*acked) }).unwrap();
+                try_sudo(&mut w.app, &c, &Shim::RawSet { key: key.into(), value: val.into() }).expect("rawset");
+            }
             sent[*ch][*tok] += *acked;
             escrowed[*ch][*tok] += *acked;
             remote_held[*ch][*tok] += *acked;
@@ -650,6 +663,18 @@ pub fn run_case(prop: &str, case: &Case, ctx: &mut CaseCtx) -> Result<(), Violat
             return Err(v(prop, "legacy-migrate-failed", format!("migrating a fabricated {version} storage image failed: {e}")));
         }
         ctx.flag("legacy");
+        // known finding: the <= 0.13.0 upgrade reconciles only the pairs that have a record, so the escrow of a
+        // pair whose sends were all still unacknowledged stays unbooked for good
+        if prop == "C12" && !unbooked.is_empty() {
+            let after = w.observe().map_err(qerr)?;
+            if let Some((ch, tok)) = unbooked.iter().find(|(ch, tok)| World::outstanding(&after, *ch, &w.local_denom(*tok)) != sent[*ch][*tok]) {
+                let what = format!("after migrating a {version} image: channel {ch} {}: outstanding {} != sent {} (all of it in flight at the upgrade, no record in the old format)", w.local_denom(*tok), World::outstanding(&after, *ch, &w.local_denom(*tok)), sent[*ch][*tok]);
+                if ctx.tolerate("C12/legacy-inflight-unbooked") {
+                    return Ok(());
+                }
+                return Err(v(prop, "legacy-inflight-unbooked", what));
+            }
+        }
         // an upgrade is not a governance call: every token allowed before is still allowed, no limit lowered
         let after = w.observe().map_err(qerr)?;
         for (t, g) in &allow_init {
@@ -666,6 +691,17 @@ pub fn run_case(prop: &str, case: &Case, ctx: &mut CaseCtx) -> Result<(), Violat
     }
 
     let mut pre = w.observe().map_err(qerr)?;
+    // C18: the list starts as the instantiate message gives it: each initial entry with the limit it was given
+    // (none = unlimited), nothing else listed, the default as requested
+    if prop == "C18" && case.legacy.is_none() {
+        let want: BTreeMap<String, Option<u64>> = allow_init.iter().map(|(t, g)| (w.cw20[*t].to_string(), *g)).collect();
+        if pre.allowed != want || pre.cfg.default_gas_limit != case.default_gas {
+            return Err(v(prop, "instantiate-not-as-requested", format!("after instantiate with allow list {want:?} and default gas limit {:?}: the contract lists {:?} and reports default {:?}", case.default_gas, pre.allowed, pre.cfg.default_gas_limit)));
+        }
+        if want.values().any(|g| g.is_none()) && case.default_gas.is_some() {
+            ctx.count("init_unlimited_entry_with_default");
+        }
+    }
     check_state(prop, &w, &pre, &sent, &failed, &redeemed, &escrowed, &paid, "after setup", ctx)?;
 
     for (step_no, op) in case.ops.iter().enumerate() {
@@ -1337,6 +1373,24 @@ fn check_state(prop: &str, w: &World, o: &Obs, sent: &[[u128; N_TOK]], failed: &
                 }
                 if o.hold[tok] < sum {
                     return Err(v(prop, "escrow-below-outstanding", format!("{at}: the contract holds {} of {denom} but reports {} outstanding over its channels", o.hold[tok], sum)));
+                }
+            }
+            // "for every token": a denomination the reports name beyond the tokens the case moves is a token too
+            let mut others: BTreeMap<String, u128> = BTreeMap::new();
+            for ch in 0..w.n_ch.min(o.chans.len()) {
+                for (d, (out, _)) in &o.chans[ch] {
+                    if !(0..N_TOK).any(|t| w.local_denom(t) == *d) {
+                        let e = others.entry(d.clone()).or_insert(0);
+                        *e = e.saturating_add(*out);
+                    }
+                }
+            }
+            for (d, sum) in others {
+                // (a cw20 denomination naming no token contract of this chain cannot be held at all)
+                let hold = if d.starts_with("cw20:") { 0 } else { w.app.wrap().query_balance(w.ics20.to_string(), d.clone()).map(|c| c.amount.u128()).unwrap_or(0) };
+                ctx.count("other_denoms_reported");
+                if hold < sum {
+                    return Err(v(prop, "escrow-below-outstanding", format!("{at}: the contract holds {hold} of {d} but reports {sum} outstanding over its channels")));
                 }
             }
         }
